@@ -318,6 +318,10 @@ func (e *Enc) applyContract(ins ssa.Instruction, ct *Contract, callee *ssa.Funct
 		e.havocCallWritesAt(h, inferred, callee, args, apre)
 	}
 	e.havocKey(h, "$A")
+	for _, av := range e.asgVals {
+		e.assert(e.refOld(av, h)) // whatever the callee stored in an assigned field exists when it returns
+	}
+	e.asgVals = nil
 	rs := e.freshResults(sig, h)
 	for _, r := range rs {
 		e.assert(e.refOld(r, h))
@@ -389,6 +393,7 @@ func (e *Enc) havocLoc(h *Heap, loc *Sx, env *evalEnv, ins ssa.Instruction) {
 					srt := e.sortOf(ft)
 					v := e.fresh("asg", srt)
 					e.assert(e.typeFacts(v, ft))
+					e.asgVals = append(e.asgVals, Val{v, srt}) // allocated by the end of the call: asserted once the counter has advanced
 					h.m[key] = app("store", e.heapGet(h, key, srt), app("emb", base.v.T, ilit(int64(i))), v)
 				}
 				return
